@@ -122,13 +122,22 @@ def gen_det(ctx):
                 full = 7 if thorough else 6        # one key-up beyond a whole LICH cycle
             # a partial frame leaves the order of the last sample and ptt_off unobservable unless the release sample is 0,
             # and may leave a sample in flight: only in the last key-up
-            part = r.choice([0, 1, 159, 160, 161, 318, 319, r.range(2, 317)]) if lastk and r.chance(1, 2) else 0
+            # (the release sample 0 and the queue-empty wait of the harness make a partial frame safe in earlier key-ups too)
+            part = r.choice([0, 1, 159, 160, 161, 318, 319, r.range(2, 317)]) if r.chance(1, 2) else 0
             last = 0 if part else r.choice([0, 1, -1, 32767, -32768, r.range(-32768, 32767)])
             d.keyup(r, full, part, last, extra_on=r.chance(1, 3))
             ctx.count(f"det-keyup-full{min(full, 5)}{'+part' if part else ''}")
         if r.chance(1, 2):
             d.idle(r, r.range(1, 400))
         ctx.count(f"det-delay{delay}")
+        out.append(d)
+    # a long partial frame of non-silent audio, then a key-up released after fewer samples: its end-of-stream frame must be
+    # padded with zeros, not with the previous key-up's audio
+    for k in range(3 if thorough else 1):
+        d = Det(rand_call(r), rand_call(r, True), 0)
+        d.keyup(r, r.choice([0, 1]), r.range(200, 319), 0)
+        d.keyup(r, 0, r.range(1, 150), 0)
+        ctx.count("det-short-keyup-after-long-partial")
         out.append(d)
     # one key-up driven entirely by the 5 s timeout of audio_queue.get(): PREAMBLE, LINK_SETUP and END_OF_STREAM on Timeout events
     t = Det(rand_call(r), rand_call(r, True), 0)
@@ -152,14 +161,18 @@ def gen_rand(ctx):
         keyups = r.range(1, 4) if delay < 1000 else r.range(1, 2)
         maxs = r.choice([0, 5, 330, 700, 1300, 2300]) if delay < 1000 else r.choice([0, 330, 700])
         pace = r.choice([0, 0, 100, 1000])
+        # every fourth case: the consumer starts draining only 0.3 .. 0.6 s after the first byte (a stalled reader)
+        stall = r.range(300, 600) if k % 4 == 3 else 0
         out.append({"src": rand_call(r), "dst": rand_call(r, True), "delay": delay, "seed": r.below(1 << 31), "keyups": keyups,
-                    "maxsamples": maxs, "pace": pace, "extra_on": int(r.chance(1, 2))})
+                    "maxsamples": maxs, "pace": pace, "extra_on": int(r.chance(1, 2)), "stall": stall})
+        if stall:
+            ctx.count("rand-consumer-stall")
         ctx.count(f"rand-delay{delay}")
     return out
 
 
 def rand_line(c):
-    return f"rand {c['src']} {c['dst'] or '-'} {c['delay']} {c['seed']} {c['keyups']} {c['maxsamples']} {c['pace']} {c['extra_on']}"
+    return f"rand {c['src']} {c['dst'] or '-'} {c['delay']} {c['seed']} {c['keyups']} {c['maxsamples']} {c['pace']} {c['extra_on']} {c.get('stall', 0)}"
 
 
 def parse_result(line):
